@@ -51,8 +51,11 @@ ToUnit(q, t) == IF q.unit = "" THEN Fail("NoUnit")
 ToSystem(q, sys) == IF q.unit = "" THEN Fail("NoUnit")
                     ELSE IF q.unit \notin UnitNames THEN Fail("UnknownUnit")
                     ELSE IF q.t = "text" THEN Fail("TextValue")
-                    ELSE LET b == BestUnit(Best(Units[q.unit].q, sys), q.lo, q.unit)
-                         IN [ok |-> TRUE, err |-> "", unit |-> b, lo |-> Conv(q.lo, q.unit, b), hi |-> Conv(q.hi, q.unit, b)]
+                    ELSE LET lst == Best(Units[q.unit].q, sys)
+                             b == BestUnit(lst, q.lo, q.unit)
+                         \* alts: the amount in EVERY unit of the designated list - the property leaves the choice among them open
+                         IN [ok |-> TRUE, err |-> "", unit |-> b, lo |-> Conv(q.lo, q.unit, b), hi |-> Conv(q.hi, q.unit, b),
+                             alts |-> [i \in DOMAIN lst |-> [unit |-> lst[i], lo |-> Conv(q.lo, q.unit, lst[i]), hi |-> Conv(q.hi, q.unit, lst[i])]]]
 \* fit = best unit of the unit's own system (the default system, metric, for units without one)
 Fit(q) == IF q.unit = "" \/ q.unit \notin UnitNames THEN [ok |-> TRUE, err |-> "unchanged", unit |-> q.unit, lo |-> [n |-> q.lo, d |-> 4], hi |-> [n |-> q.hi, d |-> 4]]
           ELSE ToSystem(q, IF Units[q.unit].sys = "none" THEN "metric" ELSE Units[q.unit].sys)
